@@ -718,6 +718,114 @@ def run_lstsq_dtypes(case, seed, R):
 
 
 # ---------------------------------------------------------------------------------------------
+# value-kind alphabet: complex modes / weights / data
+
+def explicit_sum_c(coefs, modes):
+    """Complex-safe explicit sum and its conditioning scale."""
+    total = 0.0
+    cond = 0.0
+    for c, m in zip(coefs, modes):
+        m = np.asarray(m).astype(complex)
+        total = total + complex(c) * m
+        cond += abs(complex(c)) * max(1.0, float(np.max(np.abs(m))) if m.size else 1.0)
+    return np.asarray(total), cond
+
+
+def run_sum_modes_complex(case, seed, R):
+    K, (ny, nx), md, wk = case['K'], case['shape'], case['modes'], case['weights']
+    re = dense((K, ny, nx), seed, 21, complex_=False)
+    im = dense((K, ny, nx), seed, 22, complex_=False)
+    modes = (re + 1j * im).astype(md) if np.dtype(md).kind == 'c' else re.astype(md)
+    wr = dense((K,), seed, 23, complex_=False)
+    wi = dense((K,), seed, 24, complex_=False)
+    sets = [('dense', wr + 1j * wi if wk == 'complex' else wr)]
+    for k in range(K):
+        e = np.zeros(K, dtype=complex if wk == 'complex' else float)
+        e[k] = 1j if wk == 'complex' else 1.0
+        sets.append((f'unit{k}', e))
+    eps = float(np.finfo(np.dtype(md)).eps)
+    sig = f'sum_of_2d_modes:values:modes={np.dtype(md).name},weights={wk}'
+    for cname, w in sets:
+        ref, cond = explicit_sum_c(w, modes)
+        if np.dtype(md).kind != 'c' and wk != 'complex':
+            ref = ref.real
+        for wform in ('ndarray', 'list'):
+            wa = w if wform == 'ndarray' else [complex(v) if wk == 'complex' else float(v) for v in w]
+            for mform in ('ndarray', 'list'):
+                arg = modes.copy() if mform == 'ndarray' else [m.copy() for m in modes]
+                twice(R, P.sum_of_2d_modes, (arg, wa), lambda out, s_: out, ref, 64 * eps * cond, sig, 'sum_of_2d_modes', f'{wk}',
+                      f'K={K} {ny}x{nx} modes {md} as {mform}, weights {cname} {wk} as {wform}', (arg, wa))
+    R.nontrivial()
+    R.outcome(f'modes={md},weights={wk}')
+
+
+def value_modes(kind, k, ny, nx):
+    """k modes on an ny x nx grid: real Legendre products or complex azimuthal harmonics R(r) exp(i m t)."""
+    X, Y = np.meshgrid(np.linspace(-1, 1, nx), np.linspace(-1, 1, ny))
+    if kind == 'real':
+        full = [np.ones_like(X), X, Y, 1.5 * X * X - 0.5, X * Y, 1.5 * Y * Y - 0.5]
+        return np.asarray(full[:k], dtype=float)
+    r = np.hypot(X, Y)
+    t = np.arctan2(Y, X)
+    full = [np.ones_like(r) + 0j, r * np.exp(1j * t), r * np.exp(-1j * t), (2 * r * r - 1) + 0j, r * r * np.exp(2j * t), r * r * np.exp(-2j * t)]
+    return np.asarray(full[:k], dtype=complex)
+
+
+def run_lstsq_values(case, seed, R):
+    mk, ck, dform, k, (ny, nx), N, nlabel = case['modes'], case['coefs'], case['data'], case['k'], case['shape'], case['N'], case['Nlabel']
+    modes = value_modes(mk, k, ny, nx)
+    total = ny * nx
+    order = np.random.default_rng(20260927).permutation(total)     # one fixed scattered enumeration of the samples (not seed dependent; points in general position)
+    valid = np.zeros(total, dtype=bool)
+    valid[order[:N]] = True
+    valid = valid.reshape(ny, nx)
+    inv = ~valid
+    B = modes.reshape(k, -1).T
+    Bv = B[valid.ravel()]
+    if np.linalg.matrix_rank(Bv) < k:
+        R.outcome('rank-deficient-skipped')
+        return
+    U, sv, Vh = np.linalg.svd(Bv, full_matrices=False)
+    cond = float(sv[0] / sv[-1])
+    sig = f'lstsq:values:modes={mk},data={dform}:N={nlabel}'
+    sets = []
+    d1 = dense((k,), seed, 25, complex_=False)
+    d2 = dense((k,), seed, 26, complex_=False)
+    sets.append(('dense', d1 + 1j * d2 if ck == 'complex' else d1))
+    for j in range(k):
+        e = np.zeros(k, dtype=complex if ck == 'complex' else float)
+        e[j] = 1j if ck == 'complex' else 1.0
+        sets.append((f'unit{j}', e))
+    ninv = int(inv.sum())
+    for cname, c in sets:
+        syn = B @ c
+        if dform == 'real':
+            full = np.real(syn).astype(float)                 # real data (the real part of a complex synthesis is generally NOT in the span)
+            fills = [(np.nan, np.inf, -np.inf)[i % 3] for i in range(ninv)]
+        else:
+            full = syn.astype(complex)
+            fills = [(complex(np.nan, 0), complex(np.nan, np.nan), complex(np.inf, 0), complex(0, -np.inf), complex(1, np.nan))[i % 5] for i in range(ninv)]
+        data = full.reshape(ny, nx).copy()
+        data[inv] = fills
+        dv = data[valid]
+        # float64 complex reference solve: pseudo-inverse from the SVD with the explicit Hermitian transposes
+        cref = Vh.conj().T @ ((U.conj().T @ dv) / sv)
+        if np.iscomplexobj(cref) and mk == 'real' and dform == 'real':
+            cref = cref.real
+        res = float(np.linalg.norm(Bv @ cref - dv))
+        tol = KTOL * EPS * (cond * float(np.linalg.norm(cref)) + cond ** 2 * res / float(sv[0]))
+        what = f'{k} {mk} modes, {ck} coefs {cname}, {dform} data, {ny}x{nx} grid with {N} valid samples (cond {cond:.1f}, residual {res:.1e})'
+        if dform == 'complex' or not np.iscomplexobj(syn):     # the data ARE the synthesis: the reference must invert it
+            R.expect(float(np.max(np.abs(cref - c))) <= tol, 'c10:harness:reference', what + ': reference solve does not return the synthesising coefficients')
+        for mform in (('ndarray', 'list') if cname == 'dense' else ('ndarray',)):
+            arg = modes.copy() if mform == 'ndarray' else [m.copy() for m in modes]
+            got = R.call(P.lstsq, arg, data.copy(), sig=sig + ':exception')
+            R.expect_close(got, cref, tol, sig, what + f', modes as {mform}')
+    R.nontrivial()
+    R.outcome(f'modes={mk},coefs={ck},data={dform},N={nlabel}')
+
+
+# ---------------------------------------------------------------------------------------------
 
 def plan(tier, seed):
     quick = tier == 'quick'
@@ -798,6 +906,16 @@ def plan(tier, seed):
                  for mk in ([{'kind': 'none'}] + ([{'kind': 'row', 'i': 1}, {'kind': 'circle'}, {'kind': 'ragged'}] if dd.startswith('float') else []))
                  if not (dd == 'float64' and md == 'float64')]
 
+    smc_cases = [{'K': K, 'shape': sh, 'modes': md, 'weights': wk}
+                 for K in (1, 3, 5) for sh in ([3, 4], [4, 3]) for md in ('float64', 'float32', 'complex128', 'complex64') for wk in ('real', 'complex')]
+    lsv_cases = []
+    for k, shape in ((6, [15, 20]), (3, [10, 15])):
+        for nlabel, N in (('k', k), ('2k', 2 * k), ('4k', 4 * k), ('4k+1', 4 * k + 1), ('10k', 10 * k), ('50k', 50 * k)):
+            for mk in ('real', 'complex'):
+                for ck in ('real', 'complex'):
+                    for dform in ('real', 'complex'):
+                        lsv_cases.append({'modes': mk, 'coefs': ck, 'data': dform, 'k': k, 'shape': shape, 'N': N, 'Nlabel': nlabel})
+
     return [
         ScopeUnit('sum_of_2d_modes', sm_cases, run_sum_modes,
                   f'every mode count K in 1..{LMAX} x shapes {sm_shapes} x modes given as 3-D array / list of 2-D arrays x float64/float32; '
@@ -834,6 +952,14 @@ def plan(tier, seed):
                   f'dtype alphabet: data held as {DD} (rounded counts / quantised heights / a threshold map; the float types also with NaN masks) x modes float64 / float32 '
                   '(normalised coordinates, never integer valued) x 3 bases x grids 5x6, 7x5, 9x7; dense + every unit synthesis vector; reference: float64 least squares '
                   '(numpy SVD) on the exact values held by data and modes, tolerance k eps (cond |c| + cond^2 |residual| / smax) at the coarsest floating type involved', reset=reset_all),
+        ScopeUnit('sum_of_2d_modes_values', smc_cases, run_sum_modes_complex,
+                  'value-kind alphabet: modes float64 / float32 / complex128 / complex64 x weights real / complex (dense + every unit vector, the complex units are i e_k), '
+                  'K in {1,3,5}, 3x4 and 4x3, modes and weights as array and as list, each evaluated twice; reference: explicit complex sum', reset=reset_all),
+        ScopeUnit('lstsq_values', lsv_cases, run_lstsq_values,
+                  'value-kind alphabet: modes real (Legendre products) / complex (R(r) exp(i m t) harmonics) x synthesising coefficients real / complex x data kept real (real part of the '
+                  'synthesis: generally outside the span) / complex; k = 6 modes on 15x20 and k = 3 on 10x15 with exactly N = k, 2k, 4k, 4k+1, 10k, 50k valid samples (the rest NaN / inf, '
+                  'also in only one of the real / imaginary parts); reference: float64 complex pseudo-inverse from numpy SVD with explicit Hermitian transposes, which must itself '
+                  'return the synthesising coefficients whenever the data are in the span', reset=reset_all),
         ScopeUnit('lstsq_conditioning', cc, run_lstsq_cond,
                   'conditioning alphabet: independent but strongly correlated modes -- monomials of total degree 2..8 on [0.5,1]^2 (cond 2e2..1e9), Zernike 1..10 on shrinking '
                   'off-centre sub-apertures (cond 1e1..2e9) and under off-centre circular NaN masks of a full grid, a near-duplicate mode x + p x^3 next to x (cond ~ 1/p, p = 1e-1..1e-10); '
